@@ -423,6 +423,14 @@ pub fn run(ctx: &Ctx) -> i32 {
         n: if ctx.quick() { 1500 } else { 12_000 },
     };
     acc.pool(&wl, "c13", false);
+    // language-server sessions (edit histories of C15's workload): every error the library locates must be
+    // published for the document of its module with exactly the range of its span in the client's text
+    let hs = super::c15::Histories {
+        n: if ctx.quick() { 400 } else { 8000 },
+        max_steps: if ctx.quick() { 25 } else { 60 },
+        located_only: Some("C13"),
+    };
+    acc.pool(&hs, "c15loc-c13", true);
     let mut st = Stats::new();
     for (sig, detail) in config_failures(&mut st) {
         acc.violation(&sig, "a configuration failure is not handled as the property demands", &json!({"family": "config"}), &detail, "c13config");
